@@ -328,6 +328,7 @@ Hypothesis HBin : forall op a b, P a -> P b -> P (RBinOp op a b).
 Hypothesis HUn : forall op a, P a -> P (RUnOp op a).
 Hypothesis HSelect : forall w l, Forall P l -> P (RSelect w l).
 Hypothesis HFilter : forall pred l, Forall P l -> P (RFilter pred l).
+Hypothesis HFilterBy : forall pred l, Forall P l -> P (RFilterBy pred l).
 Hypothesis HSubst : forall e a d r, P r -> P (RSubst e a d r).
 Fixpoint rtree_ind2 (r : rtree) : P r :=
   let all := fix all (l : list rtree) : Forall P l :=
@@ -342,6 +343,7 @@ Fixpoint rtree_ind2 (r : rtree) : P r :=
   | RUnOp op a => HUn op a (rtree_ind2 a)
   | RSelect w l => HSelect w l (all l)
   | RFilter pred l => HFilter pred l (all l)
+  | RFilterBy pred l => HFilterBy pred l (all l)
   | RSubst e a d r' => HSubst e a d r' (rtree_ind2 r')
   end.
 End RInd.
@@ -364,12 +366,13 @@ Fixpoint proper (r : rtree) : Prop :=
   | RUnOp _ a => proper a
   | RSelect _ l => allP proper l
   | RFilter _ l => allP proper l
+  | RFilterBy _ l => allP proper l
   | RSubst _ _ _ r' => proper r'
   end.
 
 (* sampling = enumeration, for EVERY roller tree (errors included; the identity does not need [proper]) *)
 Theorem roll_v_denote_all (r : rtree) : corr (roll_v O zeroT addT r) (denote O zeroT addT r).
-Proof. induction r as [v|h|p|l IH|n r IH|op a b IHa IHb|op a IH|w l IH|pred l IH|e a d r IH] using rtree_ind2.
+Proof. induction r as [v|h|p|l IH|n r IH|op a b IHa IHb|op a IH|w l IH|pred l IH|pred l IH|e a d r IH] using rtree_ind2.
   - intros g. apply ret_corr.
   - intros g. cbn [roll_v denote]. apply bind_corr; [intros g'; apply h_roll_expect_all|]. intros x g'. apply ret_corr.
   - intros g. cbn [roll_v denote]. apply bind_corr; [intros g'; apply p_roll_expect_all|]. intros x g'. apply ret_corr.
@@ -379,6 +382,7 @@ Proof. induction r as [v|h|p|l IH|n r IH|op a b IHa IHb|op a IH|w l IH|pred l IH
     apply bind_corr; [exact IHb|]. intros rb g''. apply ret_corr.
   - intros g. cbn [roll_v denote]. apply bind_corr; [exact IH|]. intros ra g'. apply ret_corr.
   - intros g. cbn [roll_v denote]. apply bind_corr; [apply seq_corr, Forall2_map_corr; exact IH|]. intros x g'. apply select_corr.
+  - intros g. cbn [roll_v denote]. apply bind_corr; [apply seq_corr, Forall2_map_corr; exact IH|]. intros x g'. apply ret_corr.
   - intros g. cbn [roll_v denote]. apply bind_corr; [apply seq_corr, Forall2_map_corr; exact IH|]. intros x g'. apply ret_corr.
   - intros g. rewrite roll_v_subst, denote_subst. apply bind_corr; [exact IH|]. intros rv g'. apply exp_corr. exact IH.
 Qed.
@@ -394,7 +398,7 @@ Proof. intros _. rewrite prob_expect. apply roll_v_denote_all. Qed.
 
 (* total mass one *)
 Theorem denote_mass_one_all (r : rtree) : (wweight (denote O zeroT addT r) == 1)%Q.
-Proof. induction r as [v|h|p|l IH|n r IH|op a b IHa IHb|op a IH|w l IH|pred l IH|e a d r IH] using rtree_ind2.
+Proof. induction r as [v|h|p|l IH|n r IH|op a b IHa IHb|op a IH|w l IH|pred l IH|pred l IH|e a d r IH] using rtree_ind2.
   - apply mass_ret.
   - cbn [denote]. apply mass_bind; [apply h_enum_mass|]. intros x. apply mass_ret.
   - cbn [denote]. apply mass_bind; [apply p_enum_mass|]. intros x. apply mass_ret.
@@ -405,10 +409,64 @@ Proof. induction r as [v|h|p|l IH|n r IH|op a b IHa IHb|op a IH|w l IH|pred l IH
   - cbn [denote]. apply mass_bind; [exact IH|]. intros ra. apply mass_ret.
   - cbn [denote]. apply mass_bind; [apply mass_wseq; apply Forall_map; exact IH|]. intros x. apply select_mass.
   - cbn [denote]. apply mass_bind; [apply mass_wseq; apply Forall_map; exact IH|]. intros x. apply mass_ret.
+  - cbn [denote]. apply mass_bind; [apply mass_wseq; apply Forall_map; exact IH|]. intros x. apply mass_ret.
   - rewrite denote_subst. apply mass_bind; [exact IH|]. intros rv. apply exp_mass. exact IH.
 Qed.
 Theorem denote_mass_one (r : rtree) : proper r -> (wweight (denote O zeroT addT r) == 1)%Q.
 Proof. intros _. apply denote_mass_one_all. Qed.
+
+(* ---------- the provenance-aware filter with a predicate that ignores the provenance ---------- *)
+Lemma tagged_from_snd {A B} (f : A -> list B) l : forall k, map snd (tagged_from f k l) = flat_map f l.
+Proof. induction l as [|x t IH]; intros k; [reflexivity|]. cbn [tagged_from flat_map].
+  rewrite map_app, map_map, IH. cbn [snd]. rewrite map_id. reflexivity. Qed.
+Lemma filter_by_const (pred : T -> bool) (rs : list rollv) :
+  filter_by (fun _ => pred) rs = map (fun v => if pred v then Some v else None) (flat_map (@live T) rs).
+Proof. unfold filter_by. rewrite <- (tagged_from_snd (@live T) rs 0%nat), map_map. reflexivity. Qed.
+
+(* choice trees that differ only in extensionally equal continuations.  (Leibniz equality of two trees
+   [Ask pop w k] needs k = k', i.e. functional extensionality, as soon as a source asks a question.) *)
+Inductive teq {A} : tree A -> tree A -> Prop :=
+| teq_ret a : teq (Ret a) (Ret a)
+| teq_fail e : teq (Fail e) (Fail e)
+| teq_ask pop w k k' : (forall i, teq (k i) (k' i)) -> teq (Ask pop w k) (Ask pop w k').
+Lemma teq_refl {A} (t : tree A) : teq t t.
+Proof. induction t as [a|e|pop w k IH]; constructor. exact IH. Qed.
+Lemma teq_bind {A B} (t : tree A) (f f' : A -> tree B) : (forall a, teq (f a) (f' a)) -> teq (bind t f) (bind t f').
+Proof. intros Hf. induction t as [a|e|pop w k IH]; cbn [bind]; [apply Hf|constructor|constructor; exact IH]. Qed.
+Lemma teq_run {A} (t t' : tree A) : teq t t' -> forall script, run t script = run t' script.
+Proof. induction 1 as [a|e|pop w k k' Hk IH]; intros script; [reflexivity|reflexivity|].
+  destruct script as [|i rest]; cbn [run]; [reflexivity|]. rewrite IH. reflexivity. Qed.
+Lemma teq_expect {A} (t t' : tree A) : teq t t' -> forall g, expect t g = expect t' g.
+Proof. induction 1 as [a|e|pop w k k' Hk IH]; intros g; [reflexivity|reflexivity|].
+  cbn [expect]. f_equal. apply map_ext. intros i. rewrite IH. reflexivity. Qed.
+Lemma teq_eq_funext {A} (t t' : tree A) :
+  (forall (k k' : nat -> tree A), (forall i, k i = k' i) -> k = k') -> teq t t' -> t = t'.
+Proof. intros Hext. induction 1 as [a|e|pop w k k' Hk IH]; [reflexivity|reflexivity|]. f_equal. apply Hext. exact IH. Qed.
+
+Lemma wbind_ext {A B} (l : wl A) (f f' : A -> wl B) : (forall a, f a = f' a) -> wbind l f = wbind l f'.
+Proof. intros Hf. unfold wbind. apply flat_map_ext. intros [[a|e] c]; cbn [fst snd]; [rewrite Hf|]; reflexivity. Qed.
+
+(* RFilterBy with a predicate that does not look at the source index is RFilter.
+   Sampling: the two trees ask the same questions and differ only in the (pointwise equal) final
+   continuation, hence [teq]; consequences: the same scripted runs, the same expectations, and Leibniz
+   equality exactly when continuations are extensional. *)
+Lemma filterby_const_is_filter (pred : T -> bool) (l : list rtree) :
+  teq (roll_v O zeroT addT (RFilterBy (fun _ => pred) l)) (roll_v O zeroT addT (RFilter pred l)).
+Proof. cbn [roll_v]. apply teq_bind. intros rs. rewrite filter_by_const. apply teq_refl. Qed.
+Lemma filterby_const_is_filter_run (pred : T -> bool) (l : list rtree) script :
+  run (roll_v O zeroT addT (RFilterBy (fun _ => pred) l)) script = run (roll_v O zeroT addT (RFilter pred l)) script.
+Proof. apply teq_run, filterby_const_is_filter. Qed.
+Lemma filterby_const_is_filter_expect (pred : T -> bool) (l : list rtree) g :
+  expect (roll_v O zeroT addT (RFilterBy (fun _ => pred) l)) g = expect (roll_v O zeroT addT (RFilter pred l)) g.
+Proof. apply teq_expect, filterby_const_is_filter. Qed.
+Lemma filterby_const_is_filter_funext (pred : T -> bool) (l : list rtree) :
+  (forall (k k' : nat -> tree rollv), (forall i, k i = k' i) -> k = k') ->
+  roll_v O zeroT addT (RFilterBy (fun _ => pred) l) = roll_v O zeroT addT (RFilter pred l).
+Proof. intros Hext. apply teq_eq_funext; [exact Hext|apply filterby_const_is_filter]. Qed.
+(* Enumeration: plain equality *)
+Lemma filterby_const_is_filter_denote (pred : T -> bool) (l : list rtree) :
+  denote O zeroT addT (RFilterBy (fun _ => pred) l) = denote O zeroT addT (RFilter pred l).
+Proof. cbn [denote]. apply wbind_ext. intros rs. rewrite filter_by_const. reflexivity. Qed.
 
 End RP.
 
@@ -426,6 +484,11 @@ Print Assumptions roll_v_denote_all.
 Print Assumptions roll_v_prob.
 Print Assumptions denote_mass_one.
 Print Assumptions denote_mass_one_all.
+Print Assumptions filterby_const_is_filter.
+Print Assumptions filterby_const_is_filter_run.
+Print Assumptions filterby_const_is_filter_expect.
+Print Assumptions filterby_const_is_filter_funext.
+Print Assumptions filterby_const_is_filter_denote.
 
 (* sanity checks on the two trees for which un-normalised integer weights would have gone wrong:
    a reroll that changes the number of draws, and a selection that fails on some branches only *)
@@ -439,4 +502,23 @@ Example partial_failure_half :
   let d2 : hist Z := [(1, 1); (2, 1)] in
   let r := RBinOp Z.add (RSelect [Idx 0] [RFilter (fun v => v =? 1) [RH d2]]) (RH d2) in
   (wexpect (denote ZO 0%Z Z.add r) (fun ra => match ra with Err IndexError => 1 | _ => 0 end) == 1 # 2)%Q.
+Proof. vm_compute. reflexivity. Qed.
+
+(* RFilterBy sees provenance: two equal values, from source 0 and from source 1; "keep a 2 only if it comes
+   from source 0" keeps the first and drops the second, which no value-only predicate (RFilter) can do *)
+Example filterby_provenance_run :
+  let r := RFilterBy (fun i v => if Nat.eqb i 0 then Z.eqb v 2 else false) [RVal 2%Z; RVal 2%Z] in
+  run (roll_v ZO 0%Z Z.add r) [] = ([], Some (Ok [Some 2%Z; None])).
+Proof. vm_compute. reflexivity. Qed.
+Example filterby_provenance_denote :
+  let r := RFilterBy (fun i v => if Nat.eqb i 0 then Z.eqb v 2 else false) [RVal 2%Z; RVal 2%Z] in
+  map fst (denote ZO 0%Z Z.add r) = [Ok [Some 2%Z; None]] /\ (wweight (denote ZO 0%Z Z.add r) == 1)%Q.
+Proof. vm_compute. split; reflexivity. Qed.
+Example filter_no_provenance :
+  forall pred, exists o, run (roll_v ZO 0%Z Z.add (RFilter pred [RVal 2%Z; RVal 2%Z])) [] = ([], Some (Ok [o; o])).
+Proof. intros pred. exists (if pred 2%Z then Some 2%Z else None). reflexivity. Qed.
+(* a wild die (source 0, kept only on 6) and a skill die (source 1, kept on 4+) both showing 5 *)
+Example filterby_wild_die :
+  let r := RFilterBy (fun i v => if Nat.eqb i 0 then Z.eqb v 6 else Z.leb 4 v) [RVal 5%Z; RVal 5%Z] in
+  run (roll_v ZO 0%Z Z.add r) [] = ([], Some (Ok [None; Some 5%Z])).
 Proof. vm_compute. reflexivity. Qed.
